@@ -25,12 +25,15 @@ SHAPES = {
     "space": "dir/b c.txt",
     "nonascii": "é.rs",
     "quoted": '"q\\303\\251.txt"',
+    # a directory literally called like one of git's one-letter prefixes
+    "prefixdir": "b/util.rs",
+    "prefixdir2": "w/a/conf.toml",
 }
 LABELS = {"modified": "MOD", "added": "ADD:", "removed": "DEL:", "renamed": "REN:", "copied": "CPY:"}
 DEFAULT_LABELS = {"modified": "", "added": "added:", "removed": "removed:", "renamed": "renamed:",
                   "copied": "copied:"}
 EVENTS = ["modified", "added", "deleted", "renamed", "renamed_changed", "copied", "mode",
-          "mode_changed", "binary", "empty"]
+          "mode_changed", "binary", "empty", "renamed_binary"]
 
 
 def enc(s):
@@ -107,6 +110,13 @@ def make_section(event, shape, n, prefixes=("a/", "b/"), src="git", frag=""):
     elif event == "empty":
         lines = [d, "new file mode 100644", "index 0000000..e69de29"]
         spec.update(label_key="added")
+    elif event == "renamed_binary":
+        new = nm("", "%dR" % n)
+        d = "diff --git %s %s" % (withq(pa, old), withq(pb, new))
+        lines = [d, "similarity index 90%", "rename from " + (('"%s"' % old) if quoted else old),
+                 "rename to " + (('"%s"' % new) if quoted else new), "index 1111111..2222222 100644",
+                 "Binary files %s and %s differ" % (withq(pa, old), withq(pb, new))]
+        spec.update(label_key="renamed", new=new, addenda=[])
     else:
         raise ValueError(event)
     return [enc(l) for l in lines], spec
